@@ -227,13 +227,29 @@ def ft_search(n, init, depth):
     else:
         obj0 = FenwickTree(list(init))
         ref0 = tuple(init)
+    viol = []
+    if init is not None:
+        # environment events: the caller goes on using the list it passed in (changes an entry, builds a second tree from
+        # it and updates that one); the first tree received its initial values at construction and no update since
+        for ev in [("caller_sets_entry", i) for i in range(n)] + [("second_tree_from_same_list", i) for i in range(n)]:
+            src = list(init)
+            o = FenwickTree(src)
+            if ev[0] == "caller_sets_entry":
+                src[ev[1]] = src[ev[1]] + 7
+            else:
+                FenwickTree(src).update(ev[1], 7)
+            r["n"] += 1
+            r["counters"]["transitions"] += 1
+            r["outcomes"]["environment:" + ev[0]] += 1
+            for e in _ft_check(_ft_observe(o, n), ref0, n):
+                viol.append(((), ev, e + " (the tree shares state with the list it was built from)"))
+                break
     upd = [("update", i, d) for i in range(n) for d in (1, -1, 3)]
     qry = [("prefix", i) for i in range(n)] + [("range_sum", l, h) for l in range(n) for h in range(l, n)]
     s0 = (freeze(obj0), ref0)
     seen = {s0: ()}
     objs = {s0: obj0}
     frontier = deque([s0])
-    viol = []
     while frontier:
         s = frontier.popleft()
         hist = seen[s]
@@ -400,10 +416,17 @@ def replay(v):
     from solvor.utils.data_structures import FenwickTree
 
     n = w["n"]
-    o = FenwickTree(n) if w["init"] is None else FenwickTree(list(w["init"]))
+    src = None if w["init"] is None else list(w["init"])
+    o = FenwickTree(n) if src is None else FenwickTree(src)
     ref = [0] * n if w["init"] is None else list(w["init"])
     for op in w["history"] + ([w["op"]] if w.get("op") else []):
         op = tuple(op)
+        if op[0] == "caller_sets_entry":
+            src[op[1]] = src[op[1]] + 7
+            continue
+        if op[0] == "second_tree_from_same_list":
+            FenwickTree(src).update(op[1], 7)
+            continue
         try:
             _apply(o, op)
         except Exception as ex:  # noqa: BLE001
